@@ -73,6 +73,13 @@ let bytes_mode () =
            (match pyc_domain x with
             | None -> Printf.printf "%s DomNone -\n" id
             | Some (dom, rr) -> Printf.printf "%s Dom%d%d -\n" id (if dom then 1 else 0) (if rr then 1 else 0))
+         | "zip-domain" | "jar-domain" ->
+           (match zip_init epoch with
+            | None -> Printf.printf "%s DomNone -\n" id
+            | Some init ->
+              (match zip_domain init (z_of_int (file_mtime * 1000000000)) x with
+               | None -> Printf.printf "%s DomNone -\n" id
+               | Some (dom, rr) -> Printf.printf "%s Dom%d%d -\n" id (if dom then 1 else 0) (if rr then 1 else 0)))
          | "zip" | "jar" ->
            (match zip_init epoch with
             | None -> Printf.printf "%s InitFail %s\n" id (hex x)
